@@ -178,7 +178,8 @@ def check_doc(cls, xsd, doc, ctx, st, expect_valid=None, sources=True, cli=True,
                 got = [compare.err_pos(e) for e in s.iter_errors(src)]
                 if name == 'XMLResource_lazy':
                     # paths of errors in pruned (lazy) trees are C06/C19's subject: compare classes
-                    if [g[0] for g in got] != [b[0] for b in base_errs]:
+                    # (the ORDER of a lazy run's errors is C06's subject: the root's own errors come last there)
+                    if sorted(g[0] for g in got) != sorted(b[0] for b in base_errs):
                         out.append(rec('source_kind_errors:' + name, base_errs[:3], got[:3]))
                     continue
                 if got != base_errs:
@@ -224,14 +225,17 @@ def make_case(rnd):
             chosen = []
             for _ in range(k):
                 f = rnd.choice(fs)
-                # faults must not interfere: distinct nodes that are not ancestors of each other
-                if all(f[1] != c[1] and f[1][:len(c[1])] != c[1] and c[1][:len(f[1])] != f[1]
-                       for c in chosen) or not chosen:
+                # distinct nodes; a fault on a parent's child list may be combined with a fault on one of
+                # its children (two faults under one parent) - the deeper one is applied first
+                if all(f[1] != c[1] for c in chosen):
                     chosen.append(f)
             # apply deepest-last so that paths stay valid: child-list faults change indices only
             # below their own node, and chosen nodes are pairwise unrelated
-            for f in sorted(chosen, key=lambda f: f[1], reverse=True):
-                tree = dg.apply_fault(tree, f)
+            for f in sorted(chosen, key=lambda f: (len(f[1]), f[1]), reverse=True):
+                try:
+                    tree = dg.apply_fault(tree, f)
+                except (IndexError, KeyError):
+                    pass     # the node went away with an earlier child-list fault
             label = '+'.join(f[0] for f in chosen)
             expect = False
     doc = dg.ser(tree, default_ns=rnd.random() < 0.3)
